@@ -77,8 +77,12 @@ pub fn explore_programs(prop: &str, setup: &Setup, programs: &[Vec<String>], bou
         let stream = if setup.check_replica { w.node.drain_queues().0 } else { vec![] };
         w.node.remove_dir();
         if setup.check_replica && !ops.iter().any(|o| o.resp.starts_with("PANIC")) {
-            let rep = replica_view(setup, &stream);
-            if rep != fin {
+            // C19 promises the same *value* on every replica (a resolution bumps the version locally)
+            let strip = |v: &FinalView| -> FinalView { if prop == "C19" { v.iter().map(|(k, x)| (k.clone(), (x.0.clone(), 0, x.2))).collect() } else { v.clone() } };
+            let rep = strip(&replica_view(setup, &stream));
+            let fin_cmp = strip(&fin);
+            let fin = &fin_cmp;
+            if rep != *fin {
                 // canonical kind of difference: which of value / version / presence differs
                 let mut kinds: BTreeSet<&str> = BTreeSet::new();
                 for k in fin.keys().chain(rep.keys()) {
@@ -128,14 +132,15 @@ pub fn explore_programs(prop: &str, setup: &Setup, programs: &[Vec<String>], bou
                             continue;
                         }
                         let alt: Vec<String> = p.iter().map(|i| stream[*i].clone()).collect();
-                        if replica_view(setup, &alt) == fin {
+                        if strip(&replica_view(setup, &alt)) == *fin {
                             attributable = true;
                             break;
                         }
                     }
                 }
                 let clause = if attributable { "replication-queue-order-differs-from-apply-order".to_string() } else { format!("replica-differs-from-primary: {}", kinds.into_iter().collect::<Vec<_>>().join("+")) };
-                if seen_clause.insert(clause.clone()) {
+                // C19 is stated for writes applied in the primary's order
+                if !(attributable && prop == "C19" && std::env::var("NUNMC_C19_STRICT").is_err()) && seen_clause.insert(clause.clone()) {
                     found.push(Violation { clause, shape: shape_base.clone(), detail: format!("primary {:?}; a replica fed the primary's replication queue in order {:?} ends with {:?}; schedule {:?}", fin, stream, rep, schedule), replay: json!({"engine":"ilv","property":prop,"programs":programs,"choices":choices,"schedule":schedule}) });
                 }
             }
